@@ -360,8 +360,8 @@ theorem step_facts (s : Session) (hS : SInv s) (op : Op) (hw : op.wf) (hd : s.hi
       rw [restoreTransparent_eq s.a c hcv] at h
       simp only [Session.finish] at h
       cases h
-      have hw' := restoredT_restoredWith s.a c (.small 0) hS.inv hS.heap hcv (by show (0 : Nat) ≤ idxMask; omega)
-      exact restore_facts s hS k _ c hslot htc _ hw'.inv hw'.heapOk rfl hw'.older hw'.cps .unit false trivial _ _
+      have hw' := restoredT_restoredWith s.a c (.small 0) hS.inv hcv (by show (0 : Nat) ≤ idxMask; omega)
+      exact restore_facts s hS k _ c hslot htc _ hw'.inv (hw'.heapOk hS.heap) rfl hw'.older hw'.cps .unit false trivial _ _
         hw'.counts
   | mrst k x =>
     simp only [Session.step] at h
@@ -381,7 +381,7 @@ theorem step_facts (s : Session) (hS : SInv s) (op : Op) (hw : op.wf) (hd : s.hi
         have htc : slotTcp ⟨.tcp c, true⟩ = some c := rfl
         have hcv : TCpValid s.a c := hS.tcps k _ _ hslot htc
         obtain ⟨sl, e1, e2⟩ := (getNode_iff s x p).1 hx
-        obtain ⟨r, a', hm, hout⟩ := maybeRestore_ok s.a c p hS.inv hS.heap hcv (hS.nodes x sl p e1 e2)
+        obtain ⟨r, a', hm, hout⟩ := maybeRestore_ok s.a c p hS.inv hcv (hS.nodes x sl p e1 e2)
         rw [hm] at h
         simp only [Session.finish] at h
         cases hout with
@@ -391,12 +391,12 @@ theorem step_facts (s : Session) (hS : SInv s) (op : Op) (hw : op.wf) (hd : s.hi
         | noReplace _ hw' =>
           cases h
           have hlim : a'.heapLimit = s.a.heapLimit := congrArg RefAlloc.heapLimit hw'.counts
-          exact restore_facts s hS k _ c hslot htc _ hw'.inv hw'.heapOk hlim hw'.older hw'.cps (.node p) true
+          exact restore_facts s hS k _ c hslot htc _ hw'.inv (hw'.heapOk hS.heap) hlim hw'.older hw'.cps (.node p) true
             hw'.valid _ _ hw'.counts
-        | replace _ q hw' =>
+        | replace _ q _ hw' =>
           cases h
           have hlim : a'.heapLimit = s.a.heapLimit := congrArg RefAlloc.heapLimit hw'.counts
-          exact restore_facts s hS k _ c hslot htc _ hw'.inv hw'.heapOk hlim hw'.older hw'.cps (.node q) true
+          exact restore_facts s hS k _ c hslot htc _ hw'.inv (hw'.heapOk hS.heap) hlim hw'.older hw'.cps (.node q) true
             hw'.valid _ _ hw'.counts
 
 /-! ### histories -/
